@@ -170,6 +170,9 @@ class C19(Check):
                     for nc in c["ranks"]:
                         for off in c["offs"]:
                             gs.append({"est": "plsr", "n": n, "xd": list(xd), "yd": list(yd), "nc": nc, "off": off})
+                            if len(xd) >= 2 and off == c["offs"][0]:
+                                # structured data: one channel of the last sample mode is identically zero (zero padding, a dead sensor)
+                                gs.append({"est": "plsr", "n": n, "xd": list(xd), "yd": list(yd), "nc": nc, "off": off, "zero_channel": True})
         # simplest groups first (the first stored example of a violation is then a small one); the pool hands out
         # groups one at a time, so the tail is bounded by the single heaviest group
         def cost(g):
@@ -225,6 +228,8 @@ class C19(Check):
         else:
             yd, nc = list(group["yd"]), group["nc"]
             base = {"est": "plsr", "n": n, "xd": xd, "yd": yd, "nc": nc, "off": group["off"], "seed": seed}
+            if group.get("zero_channel"):
+                base["zero_channel"] = True
             yield dict(base, xf=["base"])
             for k in c["xshifts"]:
                 yield dict(base, xf=["xshift", k])
@@ -408,6 +413,10 @@ class C19(Check):
         X = V.generic((n,) + xd, o + 1)
         Y = V.generic((n,) + yd, o + 2)
         Xt = V.generic((3,) + xd, o + 3)
+        if case.get("zero_channel"):
+            X, Xt = np.array(X, copy=True), np.array(Xt, copy=True)
+            X[..., 0] = 0.0
+            Xt[..., 0] = 0.0
         return o, X, Y, Xt
 
     @staticmethod
@@ -450,7 +459,7 @@ class C19(Check):
         return worst if np.isfinite(worst) else 0.0
 
     def _plsr_base(self, case):
-        key = (case["n"], tuple(case["xd"]), tuple(case["yd"]), case["nc"], case["off"], case.get("seed", 0))
+        key = (case["n"], tuple(case["xd"]), tuple(case["yd"]), case["nc"], case["off"], case.get("seed", 0), bool(case.get("zero_channel")))
         hit = self._plsr_cache.get(key)
         if hit is not None:
             return hit
